@@ -65,6 +65,10 @@ mod glyph;
 mod cffw;
 #[path = "c07_subset/ind.rs"]
 mod ind;
+#[path = "c07_subset/rep.rs"]
+mod rep;
+#[path = "c07_subset/sizes.rs"]
+mod sizes;
 #[path = "c07_subset/syn.rs"]
 mod syn;
 
@@ -388,6 +392,31 @@ fn subset_events(
             };
             (n, m, gl, Box::new(vis))
         };
+    // what the independent readers measure in the output (informative: the plans are tallied from the inputs)
+    {
+        let cff_out: Option<Vec<u8>> = if bare_cff { Some(bytes.clone()) } else { Tables::from_sfnt(&bytes, 0).and_then(|t| t.get("CFF ").map(|c| c.to_vec())) };
+        if let Some(c) = cff_out {
+            match ind::cff_index_sizes(&c) {
+                Some(v) => {
+                    for (name, size) in v {
+                        if sizes::TARGETS.contains(&size) {
+                            rec.bump(&format!("measured:{}:{}:{}", kind, name, size), 1);
+                        }
+                    }
+                }
+                None => rec.bump("measured:cff-output-not-walkable", 1),
+            }
+        } else if let Some(t) = Tables::from_sfnt(&bytes, 0) {
+            if let (Some(g), Some(long)) = (t.get("glyf"), t.loca_long()) {
+                if (131066..=131076).contains(&g.len()) {
+                    rec.bump(&format!("measured:glyf:{}:{}", g.len(), if long { "long-loca" } else { "short-loca" }), 1);
+                }
+                if n_out >= 65535 {
+                    rec.bump("measured:glyf:65535-glyphs-in-output", 1);
+                }
+            }
+        }
+    }
     // which re-encoding the retained charstrings went through
     let mut path = match kind {
         "cff2" => "cff2-to-cff",
@@ -538,10 +567,12 @@ fn flat(glyphs: &[Result<GlyphRec, String>], g: usize, fuel: usize, n_src: i64) 
     }
 }
 
-/// The record of a CASE's glyph as bytes, written by the harness's own writers.
+/// The record of a CASE's glyph as bytes, written by the harness's own writers under the representation the
+/// case names (numberOfContours of composites, the form of glyphs without contours, the flag encoding).
 fn case_glyph(case: &Value, g: i64, empty: &[i64]) -> Vec<u8> {
     let comps = case["comp"][g as usize].as_array().expect("comp");
     let instr: Vec<u8> = ints(&case["instr"][g as usize]).iter().map(|&b| b as u8).collect();
+    let rp = &case["rep"];
     if !comps.is_empty() {
         let n = comps.len();
         let cs = comps
@@ -561,11 +592,13 @@ fn case_glyph(case: &Value, g: i64, empty: &[i64]) -> Vec<u8> {
                 glyph::Comp { flags, gid: c[0].as_u64().unwrap() as u16, a1: c[3].as_i64().unwrap() as i32, a2: c[4].as_i64().unwrap() as i32, tr: ints(&c[5]).iter().map(|&v| v as i16).collect() }
             })
             .collect();
-        glyph::write_glyph(&GlyphRec { kind: Kind::Composite, ends: vec![], pts: vec![], instr, bbox: [0, 0, 1000, 1000], comps: cs }, 0)
+        let r = glyph::write_glyph(&GlyphRec { kind: Kind::Composite, ends: vec![], pts: vec![], instr, bbox: [0, 0, 1000, 1000], comps: cs }, 0);
+        // any negative numberOfContours means composite
+        rep::with_nc(r, rp["ncc"][g as usize].as_i64().unwrap_or(-1) as i16)
     } else if empty.contains(&g) {
-        vec![]
+        rep::empty_record(&instr, rp["empty"].as_str().unwrap_or("no-bytes"))
     } else {
-        fontgen::encode_glyph(&GlyphSpec::Simple { contours: shape(g), instructions: instr }, None)
+        rep::simple_record(shape(g), instr, rp["simple"].as_str().unwrap_or("short-vectors"))
     }
 }
 
@@ -600,10 +633,11 @@ fn replay(cases: &str, mism_path: &str, trace_path: &str, every: usize) {
         font.metrics = (0..n as usize).map(|g| (adv[g.min(nhm - 1)] as u16, lsb[g] as i16)).collect();
         font.num_h_metrics = nhm as u16;
         font.cmap = (1..n).map(|g| (0x40 + g as u32, g as u16)).collect();
-        font.loca_long = n_cases % 2 == 0;
-        let (glyf_bytes, loca_bytes) = fontgen::glyf_loca(&records, font.loca_long);
+        let rp = &case["rep"];
+        let (glyf_bytes, loca_bytes, long) = rep::glyf_loca(&records, rp["loca"].as_str().unwrap_or("short"));
+        font.loca_long = long;
         font.extra_tables = vec![("loca".to_string(), loca_bytes), ("glyf".to_string(), glyf_bytes)];
-        let bytes = font.build();
+        let bytes = if rp["dir"] == "unsorted" { rep::build_sfnt_unsorted(0x00010000, &font.tables()) } else { font.build() };
         let src_tables = Tables::from_sfnt(&bytes, 0).expect("own sfnt");
         let src = IndSrc::of(&src_tables).expect("own font readable");
         // the generator's font is what the case says (the harness's own reading of its own bytes)
@@ -611,6 +645,8 @@ fn replay(cases: &str, mism_path: &str, trace_path: &str, every: usize) {
         assert!((0..n as usize).all(|g| src.adv[g] as i64 == adv[g.min(nhm - 1)] && src.lsb[g] as i64 == lsb[g]));
         for g in 0..n as usize {
             let r = src.glyphs[g].as_ref().expect("own glyph readable");
+            let want_kind = if !case["comp"][g].as_array().unwrap().is_empty() { Kind::Composite } else if empty.contains(&(g as i64)) { Kind::Empty } else { Kind::Simple };
+            assert_eq!(r.kind, want_kind, "own glyph kind as the case says");
             let want: Vec<Value> = case["comp"][g].as_array().unwrap().iter().map(|c| json!([c[1], c[3], c[4], c[5]])).collect();
             assert_eq!(json!(r.comps.iter().map(placement).collect::<Vec<_>>()), json!(want), "own composite as the case says");
             assert_eq!(json!(r.instr), case["instr"][g]);
@@ -725,6 +761,10 @@ struct Source {
     kind: String,
     facts: Option<ind::CffFacts>,
     bounds: Vec<syn::Bound>,
+    /// size-boundary fonts (c07_subset/sizes.rs): the lists and entry points to run instead of the generic ones
+    plans: Vec<sizes::Plan>,
+    /// representation facts of a synthesized source, tallied when it is run
+    rep_facts: Vec<String>,
 }
 
 fn kind_of(t: &Tables) -> (String, Option<ind::CffFacts>) {
@@ -761,7 +801,7 @@ fn sources() -> Vec<Source> {
                 if kind == "none" || !["maxp", "hhea", "hmtx", "head"].iter().all(|x| t.has(x)) {
                     continue;
                 }
-                out.push(Source { label: format!("{}#{}", rel(&path), m), file: data.clone(), member: m, tables: t, kind, facts, bounds: vec![] });
+                out.push(Source { label: format!("{}#{}", rel(&path), m), file: data.clone(), member: m, tables: t, kind, facts, bounds: vec![], plans: vec![], rep_facts: vec![] });
             }
         }
     }
@@ -842,6 +882,12 @@ fn id_lists(n: usize, nhm: usize, composites: &[u16], featured: &[u16], cap: usi
     let mut l = vec![0u16];
     l.extend(pool.iter().take(r).cloned());
     lists.push((format!("random{}", r), l));
+    if big > 255 && n > 257 {
+        // exactly 255, 256 and 257 glyphs: both sides of the Type 1 -> CID conversion threshold
+        for k in [255u16, 256, 257] {
+            lists.push((format!("count:{}", k), (0..k).collect()));
+        }
+    }
     if big > 255 && n > big {
         // more than 255 glyphs: the Type 1 -> CID conversion threshold of CFF subsetting
         let mut l = vec![0u16];
@@ -912,6 +958,10 @@ fn run_source<P: FontTableProvider>(
                 }
             };
             rec.bump(&format!("calls:{}:{}", container, kind), 1);
+            if pat.starts_with("size:") || pat.starts_with("ladder:") || pat.starts_with("count:") {
+                // a list chosen for what the subsetter will have to write (decided from the source alone)
+                rec.bump(&format!("{}|{}|{}", pat, kind, api.split(':').next().unwrap_or(api)), 1);
+            }
             subset_events(rec, &case, kind, api, src, ids, result, bare, &visit_src);
         }
     }
@@ -942,10 +992,21 @@ fn record(seed: u64, tier: &str, out: &str) {
         .map(|f| {
             let (kind, facts) = kind_of(&f.tables);
             assert_eq!(kind, f.kind);
-            Source { label: format!("{}#0", f.label), file: f.file, member: 0, tables: f.tables, kind, facts, bounds: f.bounds }
+            Source { label: format!("{}#0", f.label), file: f.file, member: 0, tables: f.tables, kind, facts, bounds: f.bounds, plans: vec![], rep_facts: vec![] }
         })
         .collect();
     all.splice(0..0, syn);
+    // ... and the size-boundary fonts with their chosen lists
+    let sized: Vec<Source> = sizes::fonts(!quick)
+        .into_iter()
+        .map(|z| {
+            let (kind, facts) = kind_of(&z.syn.tables);
+            assert_eq!(kind, z.syn.kind, "{}", z.syn.label);
+            Source { label: format!("{}#0", z.syn.label), file: z.syn.file, member: 0, tables: z.syn.tables, kind, facts, bounds: vec![], plans: z.plans, rep_facts: z.facts }
+        })
+        .collect();
+    all.splice(0..0, sized);
+    let mut reencoded = 0usize;
     let mut per_kind_seen: BTreeMap<String, usize> = BTreeMap::new();
     let mut wrapped: BTreeMap<String, usize> = BTreeMap::new();
     for s in &all {
@@ -960,6 +1021,18 @@ fn record(seed: u64, tier: &str, out: &str) {
             continue;
         }
         src.bounds = s.bounds.iter().map(|b| (b.gid, (b.family, b.ints.clone(), b.fixed))).collect();
+        if !s.plans.is_empty() {
+            for f in &s.rep_facts {
+                rec.bump(&format!("rep:{}", f), 1);
+            }
+            let fd = ReadScope::new(&s.file).read::<FontData<'_>>().expect("FontData of a synthesized font");
+            let prov = fd.table_provider(0).expect("provider of a synthesized font");
+            for p in &s.plans {
+                run_source(&mut rec, &s.label, "otf", &s.kind, &prov, &src, &[(p.name.clone(), p.ids.clone())], &p.apis);
+            }
+            rec.bump("fonts:sized", 1);
+            continue;
+        }
         // the ~200 fonts of tests/aots share one glyph set (100 glyphs, one long metric): a seeded handful of them
         let class = if s.label.starts_with("aots/") {
             format!("aots-{}", s.kind)
@@ -988,6 +1061,12 @@ fn record(seed: u64, tier: &str, out: &str) {
         let (featured, _) = featured_composites(&src.glyphs, 3, &mut rng);
         let big_here = if s.kind == "glyf" { 0 } else { big };
         let mut lists = id_lists(src.n, src.nhm, &composites, &featured, cap, big_here, &mut rng);
+        if !s.label.starts_with("syn/") && (s.kind == "cff" || s.kind == "cid") {
+            // retained sets whose charstrings add up to the INDEX offset-size boundaries (solver over the source's lengths)
+            if let Some(c) = s.tables.get("CFF ") {
+                lists.extend(sizes::repo_cff_lists(c));
+            }
+        }
         if s.label.starts_with("syn/") && !lists.iter().any(|l| l.0 == "all") {
             // every glyph of a synthesized font is retained at least once (they are there for a reason)
             lists.push(("all".into(), (0..src.n as u16).collect()));
@@ -1019,8 +1098,53 @@ fn record(seed: u64, tier: &str, out: &str) {
         } else {
             vec!["prince:unrestricted:t1", "prince:unrestricted:cid"]
         };
-        let pick: Vec<(String, Vec<u16>)> = lists.iter().filter(|l| l.0.starts_with("random") || l.0 == "all" || l.0 == "boundary-glyphs").cloned().collect();
+        let pick: Vec<(String, Vec<u16>)> =
+            lists.iter().filter(|l| l.0.starts_with("random") || l.0 == "all" || l.0 == "boundary-glyphs" || (l.0.starts_with("size:") && !l.0.ends_with("65534") && !l.0.ends_with("65536")) || l.0.starts_with("count:")).cloned().collect();
+        // the lists at the 255 / 256 / 257 glyph threshold matter where the conversion flag is set
+        let (pick_count, pick): (Vec<_>, Vec<_>) = pick.into_iter().partition(|l| l.0.starts_with("count:"));
         run_source(&mut rec, &s.label, "otf", &s.kind, &prov, &src, &pick, &prince_apis);
+        if s.kind != "glyf" {
+            run_source(&mut rec, &s.label, "otf", &s.kind, &prov, &src, &pick_count, &["prince:unrestricted:cid"]);
+        }
+        // the same repository font under other representations (every composite stored with numberOfContours -2 /
+        // -32768, records under an unpadded long loca, table directory not sorted): three fonts with composites
+        if s.kind == "glyf" && !composites.is_empty() && reencoded < 3 && s.file.len() < 3_000_000 && !s.label.starts_with("syn/") {
+            reencoded += 1;
+            for (nc, unpadded, unsorted) in [(-2i16, true, true), (-32768i16, false, false)] {
+                let tag = format!("nc={},{},{}", nc, if unpadded { "long-unpadded" } else { "loca-as-source" }, if unsorted { "unsorted-directory" } else { "sorted-directory" });
+                let (file2, t2) = match rep::reencode(&s.tables, nc, unpadded, unsorted) {
+                    Some(x) => x,
+                    None => {
+                        rec.bump("rep:repo-glyf:not-reencoded", 1);
+                        continue;
+                    }
+                };
+                let src2 = match IndSrc::of(&t2) {
+                    Ok(v) => v,
+                    Err(_) => continue,
+                };
+                // the harness's own reading of its own bytes: the abstract font is unchanged
+                assert_eq!(src2.n, src.n);
+                assert!((0..src.n.min(65535) as u16).all(|g| src2.comps(g) == src.comps(g)), "re-encoded font keeps its components");
+                let sample: Vec<(String, Vec<u16>)> = lists.iter().filter(|l| l.0.starts_with("composites") || l.0.starts_with("first") || l.0.starts_with("random")).cloned().collect();
+                let fd2 = match ReadScope::new(&file2).read::<FontData<'_>>() {
+                    Ok(fd) => fd,
+                    Err(_) => {
+                        rec.bump("rep:repo-glyf:not-loaded", 1);
+                        continue;
+                    }
+                };
+                let prov2 = fd2.table_provider(0);
+                if let Ok(p2) = &prov2 {
+                    run_source(&mut rec, &format!("{}#rep:{}", s.label, tag), "otf", &s.kind, p2, &src2, &sample, &["subset", "prince:unrestricted:t1"]);
+                    rec.bump(&format!("rep:repo-glyf:{}", tag), 1);
+                    let n_comp = sample.iter().map(|l| l.1.iter().filter(|g| !src2.comps(**g).is_empty()).count()).sum::<usize>();
+                    rec.bump(&format!("rep:repo-glyf:composites-requested:nc={}", nc), n_comp as u64);
+                } else {
+                    rec.bump("rep:repo-glyf:not-loaded", 1);
+                };
+            }
+        }
         // re-wrapped as WOFF and WOFF2 (a sample per kind): the source of truth stays the OpenType file
         let w = wrapped.entry(class.clone()).or_default();
         let limit = if quick { 3 } else { 8 };
@@ -1116,7 +1240,7 @@ fn probe() {
 
 /// Reproduction aid: subset a synthesized font and print the converted charstrings.
 fn dump_syn(label: &str, ids: &[u16]) {
-    for f in syn::fonts() {
+    for f in syn::fonts().into_iter().chain(sizes::fonts(true).into_iter().map(|z| z.syn)) {
         if f.label != label {
             continue;
         }
@@ -1147,6 +1271,13 @@ fn main() {
         Some("replay") => replay(&args[2], &args[3], &args[4], args[5].parse().expect("every")),
         Some("record") => record(args[2].parse().expect("seed"), &args[3], &args[4]),
         Some("probe") => probe(),
+        Some("sizes") => {
+            for z in sizes::fonts(args.get(2).map(|t| t == "thorough").unwrap_or(false)) {
+                for p in &z.plans {
+                    println!("{:40} {:50} {:3} ids {:?} {:?}", z.syn.label, p.name, p.ids.len(), p.apis, z.facts);
+                }
+            }
+        }
         Some("dump-syn") => dump_syn(&args[2], &args[3].split(',').map(|x| x.parse().expect("id")).collect::<Vec<u16>>()),
         _ => {
             eprintln!("usage: c07_subset replay <cases> <mismatches> <trace> <every> | record <seed> <quick|thorough> <trace> | probe");
